@@ -96,11 +96,90 @@ def run(ck, F, E):
         joins = [c for c in lb.calls() if c.callee.endswith("::join")]
         ok = any(any(expr_const_str(lb.expr(a)) == " " for a in c.args) for c in joins)
         ck.require(ok, "C14:SHAPE:join-blank", "listing shape", "tokens are joined by one blank", "tokens are not joined by a single blank", lb.span)
+    # ---- the line number written by the listing ends at the blank that follows it
+    line_number_shape(ck, F)
     # ---- finite numerals
     finite_rule(ck, F)
     # ---- DATA renderer vs parser
     data_inverse(ck, F)
     C12.data_rules(ck, F, "C14")
+
+
+def line_number_shape(ck, F):
+    """LIST writes `<n> <tokens>`; the first token may itself start with a digit (`20 0.5`).  The reload therefore
+    depends on parse_line_number ending the number at the first character that is not a digit: once the number has
+    started, an iteration of its scan loop continues only on the true arm of is_ascii_digit; and the converted text is
+    the contiguous slice, not a filtered copy."""
+    b = get_fn(ck, F, "line_number_parser::parse_line_number")
+    if b is None:
+        return
+    loops = b.natural_loops()
+    ck.floor("C14.scan loops of parse_line_number", len(loops), 1)
+    bad = []
+    n = 0
+    for h, blk in loops.items():
+        for s0 in b.succs(h):
+            if s0 not in blk:
+                continue
+            try:
+                paths = list(b.const_paths(s0, {h}, limit=5000))
+            except OverflowError as e:
+                bad.append(str(e))
+                continue
+            for path, stop in paths:
+                if stop != h:
+                    continue
+                full = [h] + path + [h]
+                started = False
+                for j, bb in enumerate(full[:-1]):
+                    info = b.switch_info(bb)
+                    if info and info[3] and set(info[3].values()) == {"None", "Some"} and "number_endpoints" in _names(b, info[0]):
+                        chosen = [nm for v, nm in info[3].items() if info[1].get(v) == full[j + 1]]
+                        if not chosen:
+                            rest = [nm for v, nm in info[3].items() if v not in info[1]]
+                            chosen = rest
+                        started = chosen == ["Some"]
+                if not started:
+                    continue
+                n += 1
+                digit_true = False
+                for j, bb in enumerate(full[:-1]):
+                    c = b.call_at(bb)
+                    if c is not None and c.callee.endswith("is_ascii_digit") and c.target is not None:
+                        k = full.index(c.target, j) if c.target in full[j:] else None
+                        ft = bool_switch_true_target(b, c.target)
+                        if k is not None and ft and k + 1 < len(full) and full[k + 1] == ft[1]:
+                            digit_true = True
+                if not digit_true:
+                    bad.append("blocks %s" % full)
+    ck.require(n >= 1 and not bad, "C14:SHAPE:line-number-ends-at-first-non-digit", "listing shape",
+               "once the number has started, the scan continues only over digits (%d continuing paths)" % n,
+               "parse_line_number keeps scanning past a character that is not a digit (%s): LIST writes `20 0.5` for the stored "
+               "line `20 .5`, which then reloads under a different line number" % (bad[:2] or "no continuing path found"), b.span)
+    ps = [c for c in b.calls() if c.callee.endswith("<impl str>::parse")]
+    ok = bool(ps)
+    for c in ps:
+        cs = [x[1].split("::")[-1] for x in expr_calls(b.expr(c.args[0]))]
+        if any(x not in ("as_ref", "index", "deref", "get", "get_unchecked") for x in cs):
+            ok = False
+    ck.require(ok, "C14:SHAPE:line-number-is-contiguous-slice", "listing shape",
+               "the converted text is a slice of the line", "parse_line_number converts a rebuilt string, not the slice of the line it scanned",
+               b.span, nontrivial=False)
+
+
+def _names(body, e):
+    out = []
+    def walk(x):
+        if isinstance(x, tuple):
+            if x and x[0] == "local":
+                out.append(body.local_name(x[1]) or "")
+            for y in x[1:]:
+                walk(y)
+        elif isinstance(x, list):
+            for y in x:
+                walk(y)
+    walk(e)
+    return out
 
 
 def finite_rule(ck, F):
@@ -196,6 +275,35 @@ def data_inverse(ck, F):
         ck.ok("C14:DATA-QUOTE:data::data_elements_to_string", "DATA renderer vs parser",
               "string items the parser can produce are rendered so that they re-parse to themselves "
               "(quotes_always=%s escapes=%s parser_can_embed_quote=%s)" % (quotes_always, escapes, pushes_quote))
+    # numbers: an unquoted item is a number exactly when str::parse::<f64> accepts it -- the renderer writes numbers
+    # with f64's Display (to_string), whose output parse::<f64> always accepts (std round trip, trusted), so ANY extra
+    # condition on the number arm makes some rendered number reload as a string
+    from lib import controlling_switches, expr_has_field
+    pe = F.one("DataParser::push_current_element")
+    if pe is None:
+        ck.missing("C14:DATA-NUMBER:classifier", "DataParser::push_current_element")
+    else:
+        nums = list(aggregates(pe, "data::DataElement", "Number"))
+        ck.floor("C14.DataElement::Number construction sites in the DATA parser", len(nums), 1)
+        for (bb, i, pl, rv, sp) in nums:
+            src = pe.expr(rv["ops"][0])
+            from_parse = any(x[1].endswith("<impl str>::parse") for x in expr_calls(src))
+            extra = []
+            for (sb, subj, names) in controlling_switches(pe, bb):
+                cs = [x[1] for x in expr_calls(subj)]
+                if any(x.endswith("<impl str>::parse") for x in cs) and names and set(names.values()) == {"Ok", "Err"}:
+                    continue
+                if expr_has_field(subj, "state"):
+                    continue
+                extra.append(show(subj)[:100])
+            ck.require(from_parse and not extra, "C14:DATA-NUMBER:classifier", "DATA renderer vs parser",
+                       "an unquoted item is a number iff parse::<f64>() accepts it (the only other condition is the quote state)",
+                       "the DATA parser classifies an unquoted item as a number under an extra condition (%s; payload from parse: %s): "
+                       "a number the renderer prints with f64's Display (e.g. `inf` for an overflowing item) reloads as a string" %
+                       (extra, from_parse), sp)
+        rn = [c for c in rd.calls() if c.callee.endswith("ToString>::to_string")]
+        ck.require(len(rn) >= 1, "C14:DATA-NUMBER:renderer", "DATA renderer vs parser", "numbers are rendered with f64's to_string()",
+                   "the DATA renderer no longer writes numbers with f64's Display", rd.span)
     # separator: ", " -- blanks around commas are ignored by the parser (trim) -- checked with C12.5
     de = F.one("data::data_elements_to_string")
     if de is not None:
